@@ -30,7 +30,7 @@ type HarnessSpec struct {
 	Solver    string            `json:"solver"`
 	Stubs     map[string]string `json:"stubs"` // target function -> harness function (pkg-relative "pkg.Func")
 	Note      string            `json:"note"`
-	Witnesses int               `json:"witnesses"` // >0: replay up to this many complete paths natively (all of them in order)
+	Witnesses int               `json:"witnesses"` // >0: replay this many complete paths natively (default 3 quick / 8 thorough); see explore.go on how they are chosen
 	// EngineOnly: assertions over something only the engine's environment model observes (e.g. the writers
 	// handed to a process); the native side of the harness never evaluates them
 	EngineOnly []string `json:"engine_only"`
@@ -290,7 +290,7 @@ func cmdCheck(args []string) int {
 					e.wantWitness = 8
 				}
 				if h.Witnesses > 0 {
-					e.wantWitness, e.witnessAll = h.Witnesses, true
+					e.wantWitness = h.Witnesses
 				}
 			}
 			t1 := time.Now()
@@ -343,7 +343,7 @@ func cmdCheck(args []string) int {
 				allViol = append(allViol, v)
 			}
 			for _, w := range e.witnesses {
-				witnesses = append(witnesses, witnessRec{harness: h.Entry, rec: w, pkg: h.Pkg})
+				witnesses = append(witnesses, witnessRec{harness: h.Entry, rec: w.rec, pkg: h.Pkg, want: e.wantWitness})
 			}
 		}
 	}
@@ -387,7 +387,7 @@ func cmdCheck(args []string) int {
 	for i := range witnesses {
 		w := &witnesses[i]
 		path := filepath.Join(tmp, fmt.Sprintf("w-%s-%d.json", w.harness, i))
-		rf := map[string]any{"property": id, "harness": w.harness, "label": "", "kind": "witness", "draws": w.rec["draws"], "tier": tierN, "params": harnessParams[w.harness]}
+		rf := map[string]any{"property": id, "harness": w.harness, "label": "", "kind": "witness", "draws": w.rec["draws"], "tier": tierN, "params": harnessParams[w.harness], "want": w.want}
 		b, _ := json.Marshal(rf)
 		os.WriteFile(path, b, 0o644)
 		w.path = path
@@ -567,6 +567,7 @@ type witnessRec struct {
 	pkg     string
 	rec     map[string]any
 	path    string
+	want    int // candidates of one harness are replayed in order until this many ran natively (not skipped)
 }
 
 type nativeResult struct {
